@@ -468,6 +468,13 @@ def _put_one_constant(
     if hasattr(ast, 'kind'):  # reset any 'u' kind strings
         ast.kind = None
 
+    if (value.__class__ is int and (parent := self.parent) and parent.a.__class__ is Attribute
+        and not self.pars().n
+    ):  # `1.attr` is not an attribute access
+        self._parenthesize_grouping()
+
+    self._fix_joined_alnums(*self.loc)  # the new text may touch an alphanumeric which the old one did not, e.g. `1if a else b` -> `True if a else b`
+
     return self  # this breaks the rule of returning the child node since it is just a primitive
 
 
@@ -630,6 +637,9 @@ def _put_one_ImportFrom_level(
 
         self._put_src('.' * value, start_ln, start_col, ln, col, False)
 
+        if not value:
+            self._fix_joined_alnums(start_ln, start_col)  # `from.a import b` -> `from a import b`
+
         ast.level = value
 
     return self  # cannot return primitive
@@ -746,6 +756,7 @@ def _put_one_Constant_kind(
         elif value == 'u':
             if lines[ln][col : col + 1] in '\'"':
                 self._put_src(['u'], ln, col, ln, col, False, False)
+                self._fix_joined_alnums(ln, col)  # e.g. `else"s"` -> `else u"s"`
 
         else:
             raise ValueError(f"expecting 'u' or None, got {value!r}")
